@@ -58,3 +58,18 @@ def isbits(b):
     """every element of the bytes view b is 0 or 1"""
     i = t.var('bi!', t.INT)
     return forall_range(i, t.ZERO, b.len, t.and_(t.le(t.ZERO, b.at(i)), t.le(b.at(i), t.ONE)), [[b.at(i)]])
+
+
+def llen(o):
+    """length term of a list/bytearray store object (concrete or symbolic)"""
+    if getattr(o, 'items', None) is not None:
+        return I(len(o.items))
+    return o.len
+
+
+def lall(o, fn):
+    """forall j < len(o): fn(j, element j)  for int lists / bytearrays, concrete or symbolic"""
+    if getattr(o, 'items', None) is not None:
+        return t.and_(*[fn(I(j), x.t) for j, x in enumerate(o.items)])
+    j = t.var('j!', t.INT)
+    return forall_range(j, t.ZERO, o.len, fn(j, t.select(o.arr, j)), [[t.select(o.arr, j)]])
